@@ -79,11 +79,11 @@ def log(*a):
     print(*a, file=sys.stderr, flush=True)
 
 
-def dump_mir(crate, subjects_dir=None):
+def dump_mir(crate, subjects_dir=None, features=None):
     """textual MIR of `crate` for the CURRENT /repo tree (cached by a hash of the relevant sources)"""
     extra = [subjects_dir] if subjects_dir else []
     key = tree_hash(CRATE_SOURCES['subjects' if subjects_dir else crate], extra)
-    name = crate if not subjects_dir else 'subjects_' + os.path.basename(subjects_dir.rstrip('/'))
+    name = (crate if not features else crate + '_' + features.replace(',', '_')) if not subjects_dir else 'subjects_' + os.path.basename(subjects_dir.rstrip('/'))
     out = os.path.join(BUILD, 'mir', f'{name}.{key}.mir')
     os.makedirs(os.path.dirname(out), exist_ok=True)
     if os.path.exists(out) and os.path.getsize(out) > 0:
@@ -102,7 +102,7 @@ def dump_mir(crate, subjects_dir=None):
             cwd = REPO; pkg = ['-p', crate]; pname = crate
         subprocess.run(['cargo', '+nightly', 'clean', '--offline', '--target-dir', tdir, '-p', pname], cwd=cwd, env=ENV,
                        capture_output=True)
-        cmd = ['cargo', '+nightly', 'rustc', '--offline', '--lib', '--target-dir', tdir] + pkg + \
+        cmd = ['cargo', '+nightly', 'rustc', '--offline', '--lib', '--target-dir', tdir] + pkg + (['--features', features] if features else []) + \
               ['--', '-Zunpretty=mir', '-C', 'overflow-checks=on', '-A', 'warnings']
         r = subprocess.run(cmd, cwd=cwd, env=ENV, capture_output=True, text=True)
         if r.returncode != 0 or not r.stdout.strip():
